@@ -49,8 +49,8 @@ var initAllow = map[string]bool{
 	"bytes": true, "strings": true, "sort": true, "strconv": true, "unicode": true, "unicode/utf8": true,
 	"math": true, "math/bits": true, "encoding/binary": true, "encoding/hex": true, "container/list": true,
 	"io": true, "context": true, "encoding/base64": true, "math/big": false, "time": true,
-	"github.com/tendermint/tm-db": true, "github.com/pkg/errors": false, "sync": false, "sync/atomic": false,
-	"unicode/utf16": true, "path": true, "slices": true, "cmp": true, "internal/bytealg": true, "internal/itoa": true,
+	"github.com/tendermint/tm-db": true, "github.com/tendermint/iavl": true, "github.com/pkg/errors": false, "sync": false, "sync/atomic": false,
+	"unicode/utf16": true, "path": true, "net/url": true, "slices": true, "cmp": true, "internal/bytealg": true, "internal/itoa": true,
 	"internal/stringslite": true, "iter": true, "maps": true, "internal/byteorder": true,
 }
 
@@ -68,8 +68,8 @@ func (p *Program) allowInit(pkg *ssa.Package) bool {
 // denyFunc reports functions we refuse to interpret from SSA (reflection/IO heavy dependency code):
 // they must be reached through an intrinsic instead.
 var denyPkgs = []string{
-	"github.com/tendermint/go-amino", "encoding/json", "reflect", "github.com/tendermint/iavl",
-	"github.com/syndtr/goleveldb", "net", "os", "crypto/", "golang.org/x/crypto",
+	"github.com/tendermint/go-amino", "encoding/json", "reflect",
+	"github.com/syndtr/goleveldb", "net/http", "os", "crypto/", "golang.org/x/crypto",
 	"github.com/btcsuite", "regexp", "fmt", "log", "runtime", "syscall", "github.com/tendermint/tendermint/rpc",
 	"github.com/tendermint/tendermint/node", "github.com/gogo/protobuf", "github.com/golang/protobuf",
 	"gopkg.in/yaml", "text/", "math/big", "bufio", "io/ioutil", "github.com/tendermint/tendermint/p2p", "math/rand",
@@ -82,6 +82,16 @@ func (p *Program) denyFunc(fn *ssa.Function) bool {
 	path := fn.Pkg.Pkg.Path()
 	if path == "reflect" { // the fake reflect package is handled by externals
 		return false
+	}
+	// go-amino's free-standing varint/byte-slice primitives are plain code (used by tendermint/iavl node encoding)
+	if path == "github.com/tendermint/go-amino" && fn.Signature.Recv() == nil {
+		n := fn.Name()
+		if strings.HasPrefix(n, "Encode") || strings.HasPrefix(n, "Decode") || strings.HasSuffix(n, "Size") || n == "slide" {
+			return false
+		}
+	}
+	if path == "net" {
+		return true
 	}
 	for _, d := range denyPkgs {
 		if path == d || strings.HasPrefix(path, d) {
@@ -234,9 +244,29 @@ func (p *Program) RunPath(fn *ssa.Function, prefix []int, proc *smt.Proc, mirror
 	var i *interpreter
 	defer func() {
 		r := recover()
+		if i != nil {
+			func() {
+				defer func() { recover() }()
+				i.killThreads()
+			}()
+		}
+		if cc, ok := r.(childCrash); ok {
+			r = cc.r
+		}
 		switch r := r.(type) {
 		case nil:
 			res.Status = "ok"
+		case raceFound:
+			res.Status = "violation"
+			res.Detail = r.id
+			if model, ok := m.PathModel(); ok {
+				m.Asserts = append(m.Asserts, AssertRec{ID: r.id, Result: "violated", Model: model, Why: r.desc})
+			} else {
+				m.Asserts = append(m.Asserts, AssertRec{ID: r.id, Result: "unknown", Why: r.desc})
+			}
+		case deadlockErr:
+			res.Status = "panic"
+			res.Detail = "fatal error: " + r.desc
 		case violation:
 			res.Status = "violation"
 			res.Detail = r.id
